@@ -43,7 +43,7 @@ CONSTANTS Bases
 VARIABLES base, other, kind
 vars == <<base, other, kind>>
 Kinds == {"none", "pitch", "onset", "duration", "velocity", "channel-uniform", "channel-one-note", "ts-value", "ts-tick",
-          "ts-tick-far", "ks-value", "ks-tick", "ks-tick-far"}
+          "ts-tick-far", "ks-value", "ks-tick", "ks-tick-far", "extra-note", "missing-note", "extra-ts", "extra-ks"}
 EInit == base \in Bases /\ other = base /\ kind = "none"
 MapNote(sc, x, y) == [sc EXCEPT !.notes = (@ \ {x}) \cup {y}]
 MapExtra(sc, m, n) == [sc EXCEPT !.extras = (@ \ {m}) \cup {n}]
@@ -60,8 +60,20 @@ SigVariant(m, k) == CASE k = "ts-value" -> [m EXCEPT !.n = @ + 1]
                       [] k = "ks-tick-far" -> [m EXCEPT !.t = @ + 7]
                       [] k = "ks-value" -> [m EXCEPT !.k = IF @ = "G" THEN "D" ELSE "G"]
                       [] k = "ks-tick" -> [m EXCEPT !.t = @ + 1]
+(* one note more (after everything else, in a gap, before everything else), one note less, one signature more *)
+LastEnd(b) == MaxOf({x.e : x \in b.notes}, 0)
+ExtraNotes(b) == LET c == MinOf({x.ch : x \in b.notes}, 0) IN
+    {[ch |-> c, p |-> 65, s |-> LastEnd(b), e |-> LastEnd(b) + 3, v |-> 80],
+     [ch |-> c, p |-> 59, s |-> LastEnd(b) + 5, e |-> LastEnd(b) + 6, v |-> 80],
+     [ch |-> c, p |-> 58, s |-> 0, e |-> 1, v |-> 80],
+     [ch |-> c, p |-> 66, s |-> 3, e |-> LastEnd(b) + 1, v |-> 80]}
 (* all single-attribute perturbations of a base score that stay well-formed *)
 Perturbed(b) ==
+    {r \in {[kind |-> "extra-note", other |-> [b EXCEPT !.notes = @ \cup {y}]] : y \in ExtraNotes(b)} : Legal(r.other)}
+    \cup {[kind |-> "missing-note", other |-> [b EXCEPT !.notes = @ \ {x}]] : x \in b.notes}
+    \cup {[kind |-> "extra-ts", other |-> [b EXCEPT !.extras = @ \cup {MTs(LastEnd(b) + 2, 0, 5, 4)}]],
+          [kind |-> "extra-ks", other |-> [b EXCEPT !.extras = @ \cup {MKs(LastEnd(b) + 2, 0, "A")}]]}
+    \cup
     {r \in {[kind |-> k, other |-> MapNote(b, x, NoteVariant(x, k))] : k \in NoteKinds5, x \in b.notes} : Legal(r.other)}
     \cup (IF Cardinality({x.ch : x \in b.notes} \cup {m.ch : m \in b.extras}) = 1
           THEN {[kind |-> "channel-uniform", other |-> [b EXCEPT !.notes = {[x EXCEPT !.ch = @ + 1] : x \in @},
@@ -74,8 +86,8 @@ Perturb == /\ kind = "none"
 ENext == Perturb
 ContentOfScore(sc) == Content(AbsOfNotes(sc.notes, sc.extras, sc.dur))
 FlagOf(k) == CASE k \in {"channel-uniform", "channel-one-note"} -> "channel"
-               [] k \in {"ts-value", "ts-tick", "ts-tick-far"} -> "time_signature"
-               [] k \in {"ks-value", "ks-tick", "ks-tick-far"} -> "key_signature"
+               [] k \in {"ts-value", "ts-tick", "ts-tick-far", "extra-ts"} -> "time_signature"
+               [] k \in {"ks-value", "ks-tick", "ks-tick-far", "extra-ks"} -> "key_signature"
                [] k = "velocity" -> "velocity"
                [] OTHER -> "no-flag"
 (* the property's table: a single-attribute difference is relaxed by exactly its own flag *)
@@ -84,7 +96,8 @@ TableHolds ==
     \A fl \in SUBSET Flags :
        /\ kind = "none" => MustEqual(a, b, fl)
        /\ (kind # "none" /\ FlagOf(kind) \notin fl) => MustDiffer(a, b, fl)
-       /\ (kind \in {"velocity", "ts-value", "ts-tick", "ts-tick-far", "ks-value", "ks-tick", "ks-tick-far", "channel-uniform"}
+       /\ (kind \in {"velocity", "ts-value", "ts-tick", "ts-tick-far", "ks-value", "ks-tick", "ks-tick-far", "channel-uniform",
+                     "extra-ts", "extra-ks"}
              /\ FlagOf(kind) \in fl) => MustEqual(a, b, fl)
        /\ ~(MustEqual(a, b, fl) /\ MustDiffer(a, b, fl))
 =============================================================================
